@@ -385,6 +385,15 @@ impl HttpClient {
     }
 }
 
+#[cfg(gamedig_verif)]
+impl HttpClient {
+    /// Verification hook: the URL a request for `path` is made to (what `request*` hands to the agent).
+    pub fn verif_request_url(&mut self, path: &str) -> String {
+        self.address.set_path(path);
+        self.address.as_str().to_string()
+    }
+}
+
 #[cfg(test)]
 mod tests {
     use std::net::{Ipv4Addr, SocketAddrV4, ToSocketAddrs};
